@@ -3,6 +3,7 @@
 
 mod ack;
 mod chandrv;
+mod datadrv;
 mod deploydrv;
 mod scriptdrv;
 mod drivers;
@@ -137,6 +138,7 @@ fn main() {
         "script" => scriptdrv::run(&args),
         "multi" => multidrv::run(&args),
         "gen" => gendrv::run(&args),
+        "data" => datadrv::run(&args),
         "tree" => drivers::trees(&args),
         _ => {
             eprintln!("usage: harness <random|replay|tree> --models F --out F [--seed N] ...");
